@@ -5,6 +5,14 @@ import CJ.Drv.Util
 `halfpipe|<up>|<reads>|<writes>|<dls>|<srcClose>|<dstClose>`
   reads  = `hex:err;hex:err;…`   writes = `accepted:err;…`   dls = `1,0,u1,u0,…` (call order: src, dst, src, …; `u` = SetDeadline answers ENOTSUP, then SetReadDeadline ok / fails)
   err    = `-` | eof | closed | epipe | rst | refused | aborted | unreach | timeout | short | `o.<hex text>`
+           | dlx | eagain | etimedout | net.tt | net.tf   (further members of the class `generalizeErr` maps to "timeout":
+             the bare os.ErrDeadlineExceeded, *net.OpError over EAGAIN / ETIMEDOUT, a custom net.Error with
+             Timeout() = true and Temporary() = true / false)
+           | eintr | net.ft | net.ff   (not in any class: *net.OpError over EINTR — Temporary() is true —, a custom
+             net.Error with Timeout() = false and Temporary() = true / false; recorded by their text)
+  a read / write error followed by `!` is **persistent**: the connection answers every later call with the same
+  error (and no bytes).  The model is given three further copies; `CJ.Props.C05.after_read_error_irrelevant` says
+  that what follows the first failing read is irrelevant.
 answer: `T:<events>|D:<hex>|n:<counted>|cli:<hex>|cov:<hex>|c:<src closes>,<dst closes>|done:<n>|comp:<n>|logs:<n>`
 
 `proxy|<dialErr>|<header: - or 1 or 0>|<up reads>|<up writes>|<up dls>|<up sc>|<up dc>|<down reads>|…|<down dc>`
@@ -12,7 +20,7 @@ answer: `started:<b>|ret:<b>|gauge:<adds - removes>|printed:<n>|up:<n>|down:<n>|
 namespace CJ.Drv.HalfPipe
 open CJ.HalfPipe CJ.Drv
 
-def parseErr (s : String) : Option (Option Err) :=
+def parseErr (op : String) (s : String) : Option (Option Err) :=
   if s == "-" then some none
   else if s == "eof" then some (some .eof)
   else if s == "closed" then some (some .closed)
@@ -21,8 +29,12 @@ def parseErr (s : String) : Option (Option Err) :=
   else if s == "refused" then some (some .refused)
   else if s == "aborted" then some (some .aborted)
   else if s == "unreach" then some (some .unreachable)
-  else if s == "timeout" then some (some .timeout)
+  else if s == "timeout" || s == "dlx" || s == "eagain" || s == "etimedout" || s == "net.tt" || s == "net.tf" then
+    some (some .timeout)
   else if s == "short" then some (some .shortWrite)
+  else if s == "eintr" then some (some (.other s!"{op} tcp: {op}: interrupted system call"))
+  else if s == "net.ft" then some (some (.other "link flapping"))
+  else if s == "net.ff" then some (some (.other "link down"))
   else match s.splitOn "." with
     | ["o", h] => do
       let bs ← parseHex h
@@ -30,14 +42,27 @@ def parseErr (s : String) : Option (Option Err) :=
       some (some (.other t))
     | _ => none
 
-def parseRead (s : String) : Option ReadRes :=
+/-- `code` or `code!` (persistent); `-!` is not a thing -/
+def parseErrSticky (op : String) (s : String) : Option (Option Err × Bool) :=
+  if s.endsWith "!" then do
+    let e ← parseErr op (s.dropEnd 1).toString
+    if e.isNone then none else some (e, true)
+  else do some (← parseErr op s, false)
+
+def parseRead (s : String) : Option (List ReadRes) :=
   match s.splitOn ":" with
-  | [h, e] => do some ⟨← parseHex h, ← parseErr e⟩
+  | [h, e] => do
+    let (err, sticky) ← parseErrSticky "read" e
+    let r : ReadRes := ⟨← parseHex h, err⟩
+    some (if sticky then r :: List.replicate 3 ⟨[], err⟩ else [r])
   | _ => none
 
-def parseWrite (s : String) : Option WriteRes :=
+def parseWrite (s : String) : Option (List WriteRes) :=
   match s.splitOn ":" with
-  | [a, e] => do some ⟨← a.toNat?, ← parseErr e⟩
+  | [a, e] => do
+    let (err, sticky) ← parseErrSticky "write" e
+    let w : WriteRes := ⟨← a.toNat?, err⟩
+    some (if sticky then w :: List.replicate 3 w else [w])
   | _ => none
 
 def parseDl (s : String) : Option DlRes :=
@@ -45,8 +70,8 @@ def parseDl (s : String) : Option DlRes :=
   else if s == "u1" then some (.unsupported true) else if s == "u0" then some (.unsupported false) else none
 
 def parseScript (rs ws ds sc dc : String) : Option Script := do
-  some { reads := ← (fields rs ";").mapM parseRead, writes := ← (fields ws ";").mapM parseWrite,
-         dls := ← (fields ds ",").mapM parseDl, srcClose := ← parseErr sc, dstClose := ← parseErr dc }
+  some { reads := (← (fields rs ";").mapM parseRead).flatten, writes := (← (fields ws ";").mapM parseWrite).flatten,
+         dls := ← (fields ds ",").mapM parseDl, srcClose := ← parseErr "close" sc, dstClose := ← parseErr "close" dc }
 
 def showEv : Ev → String
   | .dl onSrc ok fb => "d" ++ (if onSrc then "s" else "d") ++ showBool ok ++ (if fb then "f" else "")
@@ -79,7 +104,7 @@ def handle (args : List String) : Option String :=
 def handleProxy (args : List String) : Option String :=
   match args with
   | [de, hd, urs, uws, uds, usc, udc, drs, dws, dds, dsc, ddc] => do
-    let i : ProxyIn := { dialErr := ← parseErr de, header := ← parseHeader hd,
+    let i : ProxyIn := { dialErr := ← parseErr "dial" de, header := ← parseHeader hd,
                          up := ← parseScript urs uws uds usc udc, down := ← parseScript drs dws dds dsc ddc }
     some (showProxy (proxy i))
   | _ => none
